@@ -662,8 +662,6 @@ func (a *poolInitAn) poolInitException(typ, path string) (bool, string) {
 			}
 		}
 		return true, "nil-guarded content reset: init clears every field of the kept errorContext under errorContext != nil"
-	case "decodeState.lastKeys":
-		return true, "consumer-guarded: a stale key list can only be returned for a non-object text; the library consumer ignores it unless the decoded object map is non-nil (R-KEYS iv)"
 	case "encodeState.ptrSeen":
 		// assert-empty idiom: the only pre-write read is len(e.ptrSeen) > 0 leading to panic
 		ctor := fnOf(b.Codec, "newEncodeState")
